@@ -111,16 +111,14 @@ class PythonType(GenericType):
     def is_specialization_of(self, other):
         if not isinstance(other, PythonType):
             return False
-        try:
-            len(self.python_type)
-            len(other.python_type)
-        except Exception:
-            return (
-                issubclass(self.python_type, other.python_type)
-                and not issubclass(other.python_type, self.python_type)
-            )
-        else:
+        if isinstance(self.python_type, tuple) or isinstance(
+                other.python_type, tuple):
+            # a union of classes is not comparable with anything
             return False
+        return (
+            issubclass(self.python_type, other.python_type)
+            and not issubclass(other.python_type, self.python_type)
+        )
 
 
 class MappingRule(LazyParameterType, SmartType):
